@@ -275,6 +275,9 @@ pub unsafe extern "C" fn coupe_rcb(
     if element_count != weights.len() {
         return Error::LenMismatch;
     }
+    if points.type_() != Type::Double {
+        return Error::BadType;
+    }
 
     let algo = coupe::Rcb {
         iter_count,
@@ -331,6 +334,9 @@ pub unsafe extern "C" fn coupe_rib(
     if element_count != weights.len() {
         return Error::LenMismatch;
     }
+    if points.type_() != Type::Double {
+        return Error::BadType;
+    }
 
     let algo = coupe::Rib {
         iter_count,
@@ -361,6 +367,9 @@ pub unsafe extern "C" fn coupe_hilbert(
     let element_count = points.len();
     if element_count != weights.len() {
         return Error::LenMismatch;
+    }
+    if points.type_() != Type::Double {
+        return Error::BadType;
     }
     if weights.type_() != Type::Double {
         return Error::BadType;
